@@ -231,6 +231,20 @@ def run(rep: Report, tier: str, seed: int) -> None:
                 for is_tuple in ((True, False) if n == 1 else (True,)):
                     doc_cases.append(Case(cid, render_annotated(cid, elems, is_tuple, doc or None), ("doc", elems, is_tuple, names), (), f"d:{n}{'t' if is_tuple else ''}:{''.join('N' if x else 'u' for x in names) or '-'}"))
                     cid += 1
+    # '-> None' next to documented results: still no results
+    for ndoc in (1, 2):
+        for named in itertools.product((True, False), repeat=ndoc):
+            names = [f"r{chr(97 + i)}" if nm else None for i, nm in enumerate(named)]
+            doc = numpy_returns(names, ["int", "str"][:ndoc])
+            doc_cases.append(Case(cid, render_annotated(cid, [("None",)], False, doc), ("doc", [("None",)], False, names), (), f"d:None:{''.join('N' if x else 'u' for x in names)}"))
+            cid += 1
+    # no annotation, no inferable return, results documented without names: the names are result_1, result_2, ...
+    undoc_cases: list[Case] = []
+    for ndoc in (1, 2):
+        doc = numpy_returns([None] * ndoc, ["int", "str"][:ndoc])
+        src = f'def f{cid}(xs):\n    """Summary.\n{doc}    """\n    return len(xs)\n'
+        undoc_cases.append(Case(cid, src, ("undoc", ndoc), (), f"undoc:{ndoc}u"))
+        cid += 1
     del doc_types
     # ---- inferred results next to documented results (numpydoc): coverage must not depend on the documentation
     infdoc_cases: list[Case] = []
@@ -287,6 +301,14 @@ def run(rep: Report, tier: str, seed: int) -> None:
             results = d.results or []
             rtypes = [norm(r.type) for r in results]
             rshow = [f"{r.name}: {show(norm(r.type))}" for r in results]
+            if kind == "undoc":
+                # results exist only through the docstring: they are numbered like all unnamed results
+                want_names = [f"result_{i + 1}" for i in range(len(results))]
+                if [r.py_name for r in results] == want_names and len(results) == c.meta[1]:
+                    rep.ok("names")
+                else:
+                    viol("names", f"documented-only:{c.meta[1]}", {"observed": rshow, "expected_names": [f"result_{i + 1}" for i in range(c.meta[1])]})
+                continue
             if kind == "inf":
                 _, stmts, risky, _ = c.meta
                 if risky:
@@ -383,7 +405,7 @@ def run(rep: Report, tier: str, seed: int) -> None:
     groups += [(risky_cases[i : i + 4], Opts()) for i in range(0, len(risky_cases), 4)]
     groups += [(ann_cases[i : i + per_group], Opts()) for i in range(0, len(ann_cases), per_group)]
     groups += [(ann_cases[i : i + per_group], Opts(docstyle="NUMPYDOC")) for i in range(0, len(ann_cases), per_group)]
-    groups += [(doc_cases, Opts(docstyle="NUMPYDOC"))]
+    groups += [(doc_cases, Opts(docstyle="NUMPYDOC")), (undoc_cases, Opts(docstyle="NUMPYDOC"))]
     groups += [(infdoc_cases, Opts(docstyle="NUMPYDOC")), (infdoc_cases, Opts(docstyle="GOOGLE"))]
     run_packed(groups, build, on_group, stats)
     rep.extra.update(stats)
